@@ -62,6 +62,8 @@ impl MT191 {
         // Parse optional field 72
         let field_72 = parser.parse_optional_field::<Field72>("72")?;
 
+        crate::parser::utils::verify_parser_complete(&parser)?;
+
         Ok(MT191 {
             field_20,
             field_21,
